@@ -46,6 +46,11 @@ def impl(fam, m, x, as_numpy=False):
         v = [np.float64(t) for t in x] if (len(x) + int(float(x[0]) * 1e6)) % 2 else np.array([float(t) for t in x])
     else:
         v = list(x)
+    if all(float(t).is_integer() for t in x):
+        # a corner / lattice point of the box written with integers (Individual([1, 0, 1])), half of the time as an integer
+        # ndarray: the point is the same point whatever the numeric type of its coordinates
+        import numpy as np
+        v = [int(t) for t in x] if len(x) % 2 else np.array([int(t) for t in x])
     out = p.evaluate(Individual(v))
     out = list(out)
     if fam in DTLZ and len(p.costs) != m:
@@ -116,7 +121,9 @@ def gen_point(rng, fam, m, n, bounds):
             return [rng.uniform(l0, u0), rng.uniform(l1, u1)], "uniform"
         return [rng.choice([l0, u0, rng.uniform(l0, u0)]), rng.choice([l1, u1, rng.uniform(l1, u1)])], "bounds"
     lo, hi = bounds[0]
-    if r < 0.40:
+    if r < 0.06:
+        x, mode = [float(rng.choice([lo, hi])) for _ in range(n)], "corner"
+    elif r < 0.40:
         x, mode = [rng.uniform(lo, hi) for _ in range(n)], "uniform"
     elif r < 0.55:       # Pareto set: distance variables at the optimum, position variables random
         d = 0.5 if fam in DTLZ else 0.0
